@@ -964,4 +964,1091 @@ theorem added_targets_own_table (o : Oracle) (c : Core) (m : Name) (ok grow : Bo
         · exact absurd hev (hnf _ _)
         · rw [h3]; exact hfind
 
+/-! ### the allocation ledger -/
+
+def b2i (b : Bool) : Int := if b then 1 else 0
+
+def hasTable (c : List Entry) (x : Nat) : Bool := c.any (·.table == x)
+def hasId (c : List Entry) (x : Nat) : Bool := c.any (·.id == x)
+
+def slotLive : Nat → List Alloc.Slot → Nat → Bool
+  | k, s :: ss, j => (k == j && s.alloc.isSome) || slotLive (k + 1) ss j
+  | _, [], _ => false
+
+/-- the blocks the library can still reach from its chains and scratch pointers -/
+def liveC (c : Core) : Block → Bool
+  | .trTable a => hasTable c.tr a
+  | .trEntry i => hasId c.tr i
+  | .dispTable a => hasTable c.disp a
+  | .dispEntry i => hasId c.disp i
+  | .scratch k => if k = 8 then c.wordBuf else if k = 9 then c.emphBuf else slotLive 0 (slots c.alloc) k
+  | .fwdPool => false
+  | .bwdPool => false
+
+/-- … plus the two pool headers, which stay reachable from `stringBufferPool` for ever -/
+def live (s : State) (b : Block) : Bool :=
+  liveC s.core b || (b == .fwdPool && s.fwdPool) || (b == .bwdPool && s.bwdPool)
+
+theorem balance_append (b : Block) (l1 l2 : List LedgerEv) :
+    balance b (l1 ++ l2) = balance b l1 + balance b l2 := by
+  induction l1 with
+  | nil => simp [balance]
+  | cons e es ih => simp [balance, ih]; omega
+
+theorem balance_onlyIf (b : Block) (w : Option Name) (ev : LedgerEv) :
+    balance b (onlyIf w ev) = if w.isSome then delta b ev else 0 := by
+  unfold onlyIf; split <;> simp [balance]
+
+theorem hasTable_push (c : List Entry) (w : Option Name) (i t x : Nat) :
+    hasTable (push c w i t) x = ((w.isSome && t == x) || hasTable c x) := by
+  cases w <;> simp [push, hasTable, newEntry]
+
+theorem hasId_push (c : List Entry) (w : Option Name) (i t x : Nat) :
+    hasId (push c w i t) x = ((w.isSome && i == x) || hasId c x) := by
+  cases w <;> simp [push, hasId, newEntry]
+
+theorem below_hasTable {c : List Entry} {k x : Nat} (h : Below c k) (hx : k ≤ x) : hasTable c x = false := by
+  unfold hasTable
+  rw [Bool.eq_false_iff]
+  intro hh
+  obtain ⟨e, he, heq⟩ := List.any_eq_true.mp hh
+  have := (h e he).1
+  simp only [beq_iff_eq] at heq
+  omega
+
+theorem below_hasId {c : List Entry} {k x : Nat} (h : Below c k) (hx : k ≤ x) : hasId c x = false := by
+  unfold hasId
+  rw [Bool.eq_false_iff]
+  intro hh
+  obtain ⟨e, he, heq⟩ := List.any_eq_true.mp hh
+  have := (h e he).2
+  simp only [beq_iff_eq] at heq
+  omega
+
+/-- what an operation's mallocs and frees must add up to -/
+def LStep (c : Core) (r : Out) : Prop := ∀ b, balance b r.ledger = b2i (liveC r.core b) - b2i (liveC c b)
+
+theorem liveC_congr (c c' : Core) (h1 : ∀ x, hasTable c'.tr x = hasTable c.tr x) (h2 : ∀ x, hasId c'.tr x = hasId c.tr x)
+    (h3 : ∀ x, hasTable c'.disp x = hasTable c.disp x) (h4 : ∀ x, hasId c'.disp x = hasId c.disp x)
+    (h5 : c'.alloc = c.alloc) (h6 : c'.wordBuf = c.wordBuf) (h7 : c'.emphBuf = c.emphBuf) (b : Block) :
+    liveC c' b = liveC c b := by
+  cases b <;> simp [liveC, h1, h2, h3, h4, h5, h6, h7]
+
+theorem getTable_lstep (o : Oracle) (c : Core) (trL dispL : Option Name) (hc : CInv c) :
+    LStep c (getTable o c trL dispL) := by
+  unfold getTable
+  dsimp only
+  have ptr := look_perm c.tr (norm trL)
+  have pd := look_perm c.disp (norm dispL)
+  generalize look c.tr (norm trL) = tl at *
+  generalize look c.disp (norm dispL) = dl at *
+  generalize want tl.1 (norm trL) = wT at *
+  generalize want dl.1 (norm dispL) = wD at *
+  have e1 : ∀ x, hasTable tl.2 x = hasTable c.tr x := fun x => ptr.any_eq
+  have e2 : ∀ x, hasId tl.2 x = hasId c.tr x := fun x => ptr.any_eq
+  have e3 : ∀ x, hasTable dl.2 x = hasTable c.disp x := fun x => pd.any_eq
+  have e4 : ∀ x, hasId dl.2 x = hasId c.disp x := fun x => pd.any_eq
+  have same : ∀ (k : Nat) (b : Block), liveC { c with tr := tl.2, disp := dl.2, next := k } b = liveC c b :=
+    fun k b => liveC_congr c { c with tr := tl.2, disp := dl.2, next := k } e1 e2 e3 e4 rfl rfl rfl b
+  split
+  · intro b
+    have := same c.next b
+    simp only [balance] at *
+    rw [this]; omega
+  · split
+    · intro b
+      dsimp only
+      simp only [balance_append, balance_onlyIf]
+      cases b with
+      | trTable x =>
+        simp only [liveC, hasTable_push, e1, delta]
+        by_cases hx : c.next = x
+        · subst hx
+          rw [below_hasTable hc.bT (Nat.le_refl _)]
+          cases wT <;> simp [b2i]
+        · have : (c.next == x) = false := by simpa using hx
+          simp [this, hx]
+      | trEntry x =>
+        simp only [liveC, hasId_push, e2, delta]
+        by_cases hx : c.next + 2 = x
+        · subst hx
+          rw [below_hasId hc.bT (by omega)]
+          cases wT <;> simp [b2i]
+        · have : (c.next + 2 == x) = false := by simpa using hx
+          simp [this, hx]
+      | dispTable x =>
+        simp only [liveC, hasTable_push, e3, delta]
+        by_cases hx : c.next + 1 = x
+        · subst hx
+          rw [below_hasTable hc.bD (by omega)]
+          cases wD <;> simp [b2i]
+        · have : (c.next + 1 == x) = false := by simpa using hx
+          simp [this, hx]
+      | dispEntry x =>
+        simp only [liveC, hasId_push, e4, delta]
+        by_cases hx : c.next + 3 = x
+        · subst hx
+          rw [below_hasId hc.bD (by omega)]
+          cases wD <;> simp [b2i]
+        · have : (c.next + 3 == x) = false := by simpa using hx
+          simp [this, hx]
+      | scratch k => simp [liveC, delta]
+      | fwdPool => simp [liveC, delta]
+      | bwdPool => simp [liveC, delta]
+    · intro b
+      dsimp only
+      rw [same (c.next + 4) b]
+      simp only [balance_append, balance_onlyIf, delta]
+      cases b <;> simp only [reduceCtorEq, if_false, Block.trTable.injEq, Block.dispTable.injEq, ite_self] <;>
+        (repeat' split) <;> omega
+
+theorem finalizeHead_lstep (o : Oracle) (c : Core) (r : Out) (h : LStep c r) : LStep c (finalizeHead o r) := by
+  unfold finalizeHead
+  split
+  · rename_i a e es h1 h2
+    split
+    · exact h
+    · split
+      · intro b
+        have := h b
+        dsimp only
+        rw [this]
+        congr 2
+        apply liveC_congr <;> first | rfl | (intro x; rfl) | (intro x; rw [h2]; simp [hasTable, hasId])
+      · exact h
+  · exact h
+
+theorem hasId_retarget (a a' : Nat) (c : List Entry) (x : Nat) : hasId (retarget a a' c) x = hasId c x := by
+  unfold hasId retarget
+  rw [List.any_map]
+  congr 1
+  funext e
+  simp only [Function.comp]
+  split <;> rfl
+
+theorem hasTable_retarget (a a' : Nat) (c : List Entry) (x : Nat) (hne : a ≠ a') :
+    hasTable (retarget a a' c) x =
+      if x = a' then (hasTable c a || hasTable c a') else if x = a then false else hasTable c x := by
+  induction c with
+  | nil => simp [hasTable, retarget]
+  | cons e es ih =>
+    have h1 : retarget a a' (e :: es) = (if e.table = a then { e with table := a' } else e) :: retarget a a' es := rfl
+    have h2 : ∀ (y : Entry) (l : List Entry) (z : Nat), hasTable (y :: l) z = (y.table == z || hasTable l z) := by
+      intro y l z; simp [hasTable]
+    rw [h1, h2, ih, h2, h2, h2]
+    by_cases he : e.table = a
+    · rw [if_pos he]
+      dsimp only
+      by_cases hx : x = a'
+      · subst hx; simp [he]
+      · by_cases hx2 : x = a
+        · subst hx2
+          have : (a' == x) = false := by simpa using fun h => hx h.symm
+          simp [hx, this]
+        · have h3 : (a' == x) = false := by simpa using fun h => hx h.symm
+          have h4 : (e.table == x) = false := by rw [he]; simpa using fun h => hx2 h.symm
+          simp [hx, hx2, h3, h4]
+    · rw [if_neg he]
+      by_cases hx : x = a'
+      · subst hx
+        have : (e.table == a) = false := by simpa using he
+        simp only [this, if_true, Bool.false_or]
+        cases (e.table == x) <;> cases hasTable es a <;> cases hasTable es x <;> rfl
+      · by_cases hx2 : x = a
+        · subst hx2
+          have : (e.table == x) = false := by simpa using he
+          simp [hx, this]
+        · simp [hx, hx2]
+
+theorem compileString_lstep (o : Oracle) (c : Core) (n : Name) (ok grow : Bool) (hc : CInv c) :
+    LStep c (compileString o c n ok grow) := by
+  have hl := getTable_lstep o c (some n) (some n) hc
+  have hg := (getTable_cinv o c (some n) (some n) hc).1
+  have hh := getTable_head o c n (some n)
+  unfold compileString
+  generalize getTable o c (some n) (some n) = r at *
+  dsimp only
+  rcases e1 : r.res.tr with _ | a
+  · exact hl
+  · obtain ⟨e, es, h3, h4, h5⟩ := hh a e1
+    simp only [h3]
+    by_cases hfin : e.finalized = true
+    · rw [if_pos hfin]; exact hl
+    · rw [if_neg hfin]
+      by_cases hgr : grow = true
+      · rw [if_pos hgr]
+        intro b
+        dsimp only
+        have hb := hl b
+        rw [balance_append, hb]
+        have hne : a ≠ r.core.next := by
+          have := (hg.bT e (by rw [h3]; simp)).1
+          omega
+        have hA : hasTable (e :: es) a = true := by simp [hasTable, h4]
+        have hN : hasTable (e :: es) r.core.next = false := below_hasTable (h3 ▸ hg.bT) (Nat.le_refl _)
+        cases b with
+        | trTable x =>
+          simp only [liveC, balance, delta, hasTable_retarget _ _ _ _ hne, hA, hN, h3]
+          by_cases hx : x = r.core.next
+          · subst hx
+            have : ¬ (a = r.core.next) := hne
+            simp [b2i, this, hN] <;> (repeat' split) <;> omega
+          · by_cases hx2 : x = a
+            · subst hx2
+              have : ¬ (r.core.next = x) := fun h => hx h.symm
+              simp [b2i, hx, this, hA] <;> (repeat' split) <;> omega
+            · have h6 : ¬ (a = x) := fun h => hx2 h.symm
+              have h7 : ¬ (r.core.next = x) := fun h => hx h.symm
+              simp [hx, hx2, h6, h7] <;> (repeat' split) <;> omega
+        | trEntry x => simp [liveC, balance, delta, hasId_retarget, h3]
+        | dispTable x => simp [liveC, balance, delta]
+        | dispEntry x => simp [liveC, balance, delta]
+        | scratch k => simp [liveC, balance, delta]
+        | fwdPool => simp [liveC, balance, delta]
+        | bwdPool => simp [liveC, balance, delta]
+      · rw [if_neg hgr]; exact hl
+
+/-! scratch buffers -/
+
+theorem slotLive_le (k : Nat) (ss : List Alloc.Slot) (j : Nat) (h : slotLive k ss j = true) : k ≤ j := by
+  induction ss generalizing k with
+  | nil => simp [slotLive] at h
+  | cons s ss ih =>
+    simp only [slotLive, Bool.or_eq_true, Bool.and_eq_true, beq_iff_eq] at h
+    rcases h with ⟨rfl, _⟩ | h
+    · exact Nat.le_refl _
+    · have := ih _ h; omega
+
+theorem balance_slotsFree (j k : Nat) (ss : List Alloc.Slot) :
+    balance (.scratch j) (slotsFree k ss) = - b2i (slotLive k ss j) := by
+  induction ss generalizing k with
+  | nil => simp [slotsFree, slotLive, balance, b2i]
+  | cons s ss ih =>
+    simp only [slotsFree, slotLive, balance_append, ih]
+    by_cases hk : k = j
+    · subst hk
+      have : slotLive (k + 1) ss k = false := by
+        rw [Bool.eq_false_iff]; intro h; have := slotLive_le _ _ _ h; omega
+      cases hs : s.alloc.isSome <;> simp [balance, delta, b2i, this]
+    · have : (k == j) = false := by simpa using hk
+      cases hs : s.alloc.isSome <;> simp [balance, delta, this, hk]
+
+theorem balance_slotsFree_other (b : Block) (k : Nat) (ss : List Alloc.Slot) (hb : ∀ j, b ≠ .scratch j) :
+    balance b (slotsFree k ss) = 0 := by
+  induction ss generalizing k with
+  | nil => simp [slotsFree, balance]
+  | cons s ss ih =>
+    simp only [slotsFree, balance_append, ih]
+    split
+    · simp only [balance, delta]; rw [if_neg (fun h => hb k h.symm)]; omega
+    · simp [balance]
+
+def PairsOK : List Alloc.Slot → List Alloc.Slot → Prop
+  | b :: bs, a :: as => (a = b ∨ a.alloc.isSome = true) ∧ PairsOK bs as
+  | [], [] => True
+  | _, _ => False
+
+theorem balance_slotsEvents (j k : Nat) (bs as : List Alloc.Slot) (h : PairsOK bs as) :
+    balance (.scratch j) (slotsEvents k bs as) = b2i (slotLive k as j) - b2i (slotLive k bs j) := by
+  induction bs generalizing k as with
+  | nil =>
+    cases as with
+    | nil => simp [slotsEvents, slotLive, balance]
+    | cons a as => simp [PairsOK] at h
+  | cons b bs ih =>
+    cases as with
+    | nil => simp [PairsOK] at h
+    | cons a as =>
+      simp only [PairsOK] at h
+      simp only [slotsEvents, balance_append, ih _ _ h.2, slotLive]
+      have hb : slotLive (k + 1) bs k = false := by
+        rw [Bool.eq_false_iff]; intro h; have := slotLive_le _ _ _ h; omega
+      have ha : slotLive (k + 1) as k = false := by
+        rw [Bool.eq_false_iff]; intro h; have := slotLive_le _ _ _ h; omega
+      unfold slotEvents
+      by_cases hk : k = j
+      · subst hk
+        rw [ha, hb]
+        by_cases hab : a = b
+        · subst hab; simp [balance]
+        · rw [if_neg hab]
+          have hsome : a.alloc.isSome = true := h.1.resolve_left hab
+          cases hbs : b.alloc.isSome <;> simp [balance, delta, b2i, hsome]
+      · have hkj : (k == j) = false := by simpa using hk
+        simp only [hkj, Bool.false_and, Bool.false_or]
+        have : balance (.scratch j) (if a = b then [] else
+            (if b.alloc.isSome = true then [LedgerEv.rel (.scratch k)] else []) ++ [LedgerEv.acq (.scratch k)]) = 0 := by
+          split
+          · rfl
+          · split <;> simp [balance, delta, hk]
+        rw [this]; omega
+
+theorem balance_slotsEvents_other (b : Block) (k : Nat) (bs as : List Alloc.Slot) (hb : ∀ j, b ≠ .scratch j) :
+    balance b (slotsEvents k bs as) = 0 := by
+  induction bs generalizing k as with
+  | nil => cases as <;> simp [slotsEvents, balance]
+  | cons x bs ih =>
+    cases as with
+    | nil => simp [slotsEvents, balance]
+    | cons a as =>
+      simp only [slotsEvents, balance_append, ih]
+      unfold slotEvents
+      split
+      · simp [balance]
+      · split
+        · have hk : ¬ (Block.scratch k = b) := fun h => hb k h.symm
+          simp [balance, delta, hk]
+        · have hk : ¬ (Block.scratch k = b) := fun h => hb k h.symm
+          simp [balance, delta, hk]
+
+theorem slotRequest_ok (s : Alloc.Slot) (w : Int) : s.request w = s ∨ (s.request w).alloc.isSome = true := by
+  unfold Alloc.Slot.request
+  split
+  · right; rfl
+  · left; rfl
+
+theorem request_pairs (e : Bool) (b : Alloc.Buf) (i : Nat) (sm dm : Int) (s a1 : Alloc.State) (sl : Alloc.Slot)
+    (h : Alloc.request e b i sm dm s = some (a1, sl)) (h1 : b ≠ .wordBuffer) (h2 : b ≠ .emphasisBuffer) :
+    PairsOK (slots (Alloc.forget e i s)) (slots a1) := by
+  unfold Alloc.request at h
+  cases b with
+  | wordBuffer => exact absurd rfl h1
+  | emphasisBuffer => exact absurd rfl h2
+  | passbuf =>
+    match i, h with
+    | 0, h =>
+      simp only [Option.some.injEq, Prod.mk.injEq] at h
+      obtain ⟨rfl, _⟩ := h
+      simp [slots, PairsOK, slotRequest_ok]
+    | 1, h =>
+      simp only [Option.some.injEq, Prod.mk.injEq] at h
+      obtain ⟨rfl, _⟩ := h
+      simp [slots, PairsOK, slotRequest_ok]
+    | 2, h =>
+      simp only [Option.some.injEq, Prod.mk.injEq] at h
+      obtain ⟨rfl, _⟩ := h
+      simp [slots, PairsOK, slotRequest_ok]
+    | n + 3, h => simp at h
+  | typebuf =>
+    simp only [Option.some.injEq, Prod.mk.injEq] at h
+    obtain ⟨rfl, _⟩ := h
+    simp [slots, PairsOK, slotRequest_ok]
+  | destSpacing =>
+    simp only [Option.some.injEq, Prod.mk.injEq] at h
+    obtain ⟨rfl, _⟩ := h
+    simp [slots, PairsOK, slotRequest_ok]
+  | posMapping1 =>
+    simp only [Option.some.injEq, Prod.mk.injEq] at h
+    obtain ⟨rfl, _⟩ := h
+    simp [slots, PairsOK, slotRequest_ok]
+  | posMapping2 =>
+    simp only [Option.some.injEq, Prod.mk.injEq] at h
+    obtain ⟨rfl, _⟩ := h
+    simp [slots, PairsOK, slotRequest_ok]
+  | posMapping3 =>
+    simp only [Option.some.injEq, Prod.mk.injEq] at h
+    obtain ⟨rfl, _⟩ := h
+    simp [slots, PairsOK, slotRequest_ok]
+
+theorem slotLive_forget (e : Bool) (i : Nat) (s : Alloc.State) (k j : Nat) :
+    slotLive k (slots (Alloc.forget e i s)) j = slotLive k (slots s) j := by
+  unfold Alloc.forget
+  cases e with
+  | false => rfl
+  | true =>
+    simp only [if_true, slots, slotLive, Alloc.Slot.forget]
+    split <;> split <;> split <;> rfl
+
+theorem scratch_lstep (c : Core) (e : Bool) (b : Alloc.Buf) (i : Nat) (sm dm : Int) :
+    LStep c (scratch c e b i sm dm) := by
+  have other : ∀ (a1 : Alloc.State) (sl : Alloc.Slot), Alloc.request e b i sm dm c.alloc = some (a1, sl) →
+      b ≠ .wordBuffer → b ≠ .emphasisBuffer →
+      LStep c { core := { c with alloc := a1 },
+                ledger := slotsEvents 0 (slots (Alloc.forget e i c.alloc)) (slots a1) } := by
+    intro a1 sl hr h1 h2 blk
+    have hp := request_pairs e b i sm dm c.alloc a1 sl hr h1 h2
+    cases blk with
+    | scratch j =>
+      dsimp only
+      rw [balance_slotsEvents j 0 _ _ hp, slotLive_forget]
+      simp only [liveC]
+      by_cases h8 : j = 8
+      · subst h8; simp [slots, slotLive]
+      · by_cases h9 : j = 9
+        · subst h9; simp [slots, slotLive]
+        · simp [h8, h9]
+    | trTable x => dsimp only; rw [balance_slotsEvents_other _ _ _ _ (by intro j; simp)]; simp [liveC]
+    | trEntry x => dsimp only; rw [balance_slotsEvents_other _ _ _ _ (by intro j; simp)]; simp [liveC]
+    | dispTable x => dsimp only; rw [balance_slotsEvents_other _ _ _ _ (by intro j; simp)]; simp [liveC]
+    | dispEntry x => dsimp only; rw [balance_slotsEvents_other _ _ _ _ (by intro j; simp)]; simp [liveC]
+    | fwdPool => dsimp only; rw [balance_slotsEvents_other _ _ _ _ (by intro j; simp)]; simp [liveC]
+    | bwdPool => dsimp only; rw [balance_slotsEvents_other _ _ _ _ (by intro j; simp)]; simp [liveC]
+  unfold scratch
+  cases b with
+  | wordBuffer =>
+    intro blk
+    dsimp only
+    cases blk with
+    | scratch j =>
+      by_cases hj : j = 8
+      · subst hj
+        cases hw : c.wordBuf <;> simp [liveC, balance, delta, b2i, hw]
+      · have : ¬ (8 = j) := fun h => hj h.symm
+        cases hw : c.wordBuf <;> simp [liveC, balance, delta, hj, this]
+    | trTable x => cases hw : c.wordBuf <;> simp [liveC, balance, delta]
+    | trEntry x => cases hw : c.wordBuf <;> simp [liveC, balance, delta]
+    | dispTable x => cases hw : c.wordBuf <;> simp [liveC, balance, delta]
+    | dispEntry x => cases hw : c.wordBuf <;> simp [liveC, balance, delta]
+    | fwdPool => cases hw : c.wordBuf <;> simp [liveC, balance, delta]
+    | bwdPool => cases hw : c.wordBuf <;> simp [liveC, balance, delta]
+  | emphasisBuffer =>
+    intro blk
+    dsimp only
+    cases blk with
+    | scratch j =>
+      by_cases hj : j = 9
+      · subst hj
+        cases hw : c.emphBuf <;> simp [liveC, balance, delta, b2i, hw]
+      · have : ¬ (9 = j) := fun h => hj h.symm
+        cases hw : c.emphBuf <;> simp [liveC, balance, delta, hj, this]
+    | trTable x => cases hw : c.emphBuf <;> simp [liveC, balance, delta]
+    | trEntry x => cases hw : c.emphBuf <;> simp [liveC, balance, delta]
+    | dispTable x => cases hw : c.emphBuf <;> simp [liveC, balance, delta]
+    | dispEntry x => cases hw : c.emphBuf <;> simp [liveC, balance, delta]
+    | fwdPool => cases hw : c.emphBuf <;> simp [liveC, balance, delta]
+    | bwdPool => cases hw : c.emphBuf <;> simp [liveC, balance, delta]
+  | typebuf =>
+    dsimp only
+    cases hr : Alloc.request e .typebuf i sm dm c.alloc with
+    | none => intro blk; simp [balance]
+    | some p => exact other p.1 p.2 hr (by simp) (by simp)
+  | destSpacing =>
+    dsimp only
+    cases hr : Alloc.request e .destSpacing i sm dm c.alloc with
+    | none => intro blk; simp [balance]
+    | some p => exact other p.1 p.2 hr (by simp) (by simp)
+  | passbuf =>
+    dsimp only
+    cases hr : Alloc.request e .passbuf i sm dm c.alloc with
+    | none => intro blk; simp [balance]
+    | some p => exact other p.1 p.2 hr (by simp) (by simp)
+  | posMapping1 =>
+    dsimp only
+    cases hr : Alloc.request e .posMapping1 i sm dm c.alloc with
+    | none => intro blk; simp [balance]
+    | some p => exact other p.1 p.2 hr (by simp) (by simp)
+  | posMapping2 =>
+    dsimp only
+    cases hr : Alloc.request e .posMapping2 i sm dm c.alloc with
+    | none => intro blk; simp [balance]
+    | some p => exact other p.1 p.2 hr (by simp) (by simp)
+  | posMapping3 =>
+    dsimp only
+    cases hr : Alloc.request e .posMapping3 i sm dm c.alloc with
+    | none => intro blk; simp [balance]
+    | some p => exact other p.1 p.2 hr (by simp) (by simp)
+
+theorem stepCore_lstep (o : Oracle) (c : Core) (op : Op) (hc : CInv c) : LStep c (stepCore o c op) := by
+  cases op with
+  | get t d f =>
+    simp only [stepCore]
+    split
+    · exact finalizeHead_lstep o c _ (getTable_lstep o c t d hc)
+    · exact getTable_lstep o c t d hc
+  | compileString n ok g => exact compileString_lstep o c n ok g hc
+  | scratch e b i sm dm => exact scratch_lstep c e b i sm dm
+  | pool b => intro blk; simp [stepCore, balance]
+  | free => intro blk; simp [stepCore, balance]
+
+/-! ### lou_free and the whole machine -/
+
+def LInv (s : State) : Prop := ∀ b, balance b s.ledger = b2i (live s b)
+
+theorem balance_freeTr (c : List Entry) (hd : Distinct c) (b : Block) :
+    balance b (freeTr c) = - b2i (match b with | .trTable x => hasTable c x | .trEntry x => hasId c x | _ => false) := by
+  induction c with
+  | nil => cases b <;> simp [freeTr, balance, hasTable, hasId, b2i]
+  | cons e es ih =>
+    have hp := List.pairwise_cons.mp hd
+    have h1 : freeTr (e :: es) = [LedgerEv.rel (.trTable e.table), LedgerEv.rel (.trEntry e.id)] ++ freeTr es := by
+      simp [freeTr]
+    rw [h1, balance_append, ih hp.2]
+    cases b with
+    | trTable x =>
+      simp only [balance, delta, hasTable, List.any_cons]
+      by_cases hx : e.table = x
+      · subst hx
+        have : es.any (·.table == e.table) = false := by
+          rw [Bool.eq_false_iff]; intro hh
+          obtain ⟨y, hy, hyy⟩ := List.any_eq_true.mp hh
+          exact (hp.1 y hy).1 (beq_iff_eq.mp hyy).symm
+        simp [b2i, this]
+      · have : (e.table == x) = false := by simpa using hx
+        simp [hx, this]
+    | trEntry x =>
+      simp only [balance, delta, hasId, List.any_cons]
+      by_cases hx : e.id = x
+      · subst hx
+        have : es.any (·.id == e.id) = false := by
+          rw [Bool.eq_false_iff]; intro hh
+          obtain ⟨y, hy, hyy⟩ := List.any_eq_true.mp hh
+          exact (hp.1 y hy).2 (beq_iff_eq.mp hyy).symm
+        simp [b2i, this]
+      · have : (e.id == x) = false := by simpa using hx
+        simp [hx, this]
+    | dispTable x => simp [balance, delta, b2i]
+    | dispEntry x => simp [balance, delta, b2i]
+    | scratch k => simp [balance, delta, b2i]
+    | fwdPool => simp [balance, delta, b2i]
+    | bwdPool => simp [balance, delta, b2i]
+
+theorem balance_freeDisp (c : List Entry) (hd : Distinct c) (b : Block) :
+    balance b (freeDisp c) = - b2i (match b with | .dispTable x => hasTable c x | .dispEntry x => hasId c x | _ => false) := by
+  induction c with
+  | nil => cases b <;> simp [freeDisp, balance, hasTable, hasId, b2i]
+  | cons e es ih =>
+    have hp := List.pairwise_cons.mp hd
+    have h1 : freeDisp (e :: es) = [LedgerEv.rel (.dispTable e.table), LedgerEv.rel (.dispEntry e.id)] ++ freeDisp es := by
+      simp [freeDisp]
+    rw [h1, balance_append, ih hp.2]
+    cases b with
+    | dispTable x =>
+      simp only [balance, delta, hasTable, List.any_cons]
+      by_cases hx : e.table = x
+      · subst hx
+        have : es.any (·.table == e.table) = false := by
+          rw [Bool.eq_false_iff]; intro hh
+          obtain ⟨y, hy, hyy⟩ := List.any_eq_true.mp hh
+          exact (hp.1 y hy).1 (beq_iff_eq.mp hyy).symm
+        simp [b2i, this]
+      · have : (e.table == x) = false := by simpa using hx
+        simp [hx, this]
+    | dispEntry x =>
+      simp only [balance, delta, hasId, List.any_cons]
+      by_cases hx : e.id = x
+      · subst hx
+        have : es.any (·.id == e.id) = false := by
+          rw [Bool.eq_false_iff]; intro hh
+          obtain ⟨y, hy, hyy⟩ := List.any_eq_true.mp hh
+          exact (hp.1 y hy).2 (beq_iff_eq.mp hyy).symm
+        simp [b2i, this]
+      · have : (e.id == x) = false := by simpa using hx
+        simp [hx, this]
+    | trTable x => simp [balance, delta, b2i]
+    | trEntry x => simp [balance, delta, b2i]
+    | scratch k => simp [balance, delta, b2i]
+    | fwdPool => simp [balance, delta, b2i]
+    | bwdPool => simp [balance, delta, b2i]
+
+/-- `lou_free` releases exactly the blocks the library could reach from its chains and scratch pointers -/
+theorem balance_freeEvents (c : Core) (hc : CInv c) (b : Block) : balance b (freeEvents c) = - b2i (liveC c b) := by
+  unfold freeEvents
+  simp only [balance_append, balance_freeTr _ hc.dT, balance_freeDisp _ hc.dD]
+  cases b with
+  | scratch j =>
+    rw [balance_slotsFree]
+    simp only [liveC]
+    by_cases h8 : j = 8
+    · subst h8
+      cases hw : c.wordBuf <;> cases he : c.emphBuf <;> simp [slots, slotLive, balance, delta, b2i]
+    · by_cases h9 : j = 9
+      · subst h9
+        cases hw : c.wordBuf <;> cases he : c.emphBuf <;> simp [slots, slotLive, balance, delta, b2i]
+      · have a8 : ¬ (8 = j) := fun h => h8 h.symm
+        have a9 : ¬ (9 = j) := fun h => h9 h.symm
+        cases hw : c.wordBuf <;> cases he : c.emphBuf <;> simp [balance, delta, b2i, h8, h9, a8, a9]
+  | trTable x =>
+    rw [balance_slotsFree_other _ _ _ (by intro j; simp)]
+    cases hw : c.wordBuf <;> cases he : c.emphBuf <;> simp [liveC, balance, delta, b2i] <;> rfl
+  | trEntry x =>
+    rw [balance_slotsFree_other _ _ _ (by intro j; simp)]
+    cases hw : c.wordBuf <;> cases he : c.emphBuf <;> simp [liveC, balance, delta, b2i] <;> rfl
+  | dispTable x =>
+    rw [balance_slotsFree_other _ _ _ (by intro j; simp)]
+    cases hw : c.wordBuf <;> cases he : c.emphBuf <;> simp [liveC, balance, delta, b2i] <;> rfl
+  | dispEntry x =>
+    rw [balance_slotsFree_other _ _ _ (by intro j; simp)]
+    cases hw : c.wordBuf <;> cases he : c.emphBuf <;> simp [liveC, balance, delta, b2i] <;> rfl
+  | fwdPool =>
+    rw [balance_slotsFree_other _ _ _ (by intro j; simp)]
+    cases hw : c.wordBuf <;> cases he : c.emphBuf <;> simp [liveC, balance, delta, b2i] <;> rfl
+  | bwdPool =>
+    rw [balance_slotsFree_other _ _ _ (by intro j; simp)]
+    cases hw : c.wordBuf <;> cases he : c.emphBuf <;> simp [liveC, balance, delta, b2i] <;> rfl
+
+theorem liveC_init (b : Block) : liveC {} b = false := by
+  cases b <;> simp [liveC, hasTable, hasId, slots, slotLive]
+
+theorem liveC_pool (c : Core) : liveC c .fwdPool = false ∧ liveC c .bwdPool = false := ⟨rfl, rfl⟩
+
+theorem b2i_arith (n o p : Bool) (h : p = true → n = false ∧ o = false) :
+    b2i (o || p) + (b2i n - b2i o) = b2i (n || p) := by
+  cases n <;> cases o <;> cases p <;> simp [b2i] at *
+
+theorem pool_not_liveC (c : Core) (b : Block) (fp bp : Bool)
+    (h : ((b == Block.fwdPool && fp) || (b == Block.bwdPool && bp)) = true) : liveC c b = false := by
+  cases b <;> simp [liveC] at *
+
+theorem step_linv (o : Oracle) (s : State) (op : Op) (hc : CInv s.core) (h : LInv s) : LInv (step o s op).1 := by
+  have core : ∀ op', LInv
+      ({ s with core := (stepCore o s.core op').core, ledger := s.ledger ++ (stepCore o s.core op').ledger,
+                log := s.log ++ (stepCore o s.core op').events } : State) := by
+    intro op' b
+    have hl := stepCore_lstep o s.core op' hc b
+    have hb := h b
+    dsimp only
+    rw [balance_append, hl, hb]
+    unfold live
+    dsimp only
+    rw [Bool.or_assoc, Bool.or_assoc]
+    exact b2i_arith _ _ _ (fun hp => ⟨pool_not_liveC _ b _ _ hp, pool_not_liveC _ b _ _ hp⟩)
+  cases op with
+  | get t d f => exact core _
+  | compileString n ok g => exact core _
+  | scratch e b i sm dm => exact core _
+  | pool back =>
+    cases back with
+    | false =>
+      simp only [step]
+      split
+      · exact h
+      · rename_i hp
+        intro b
+        have hb := h b
+        dsimp only
+        rw [balance_append, hb]
+        unfold live
+        cases b <;> simp_all [balance, delta, b2i, liveC]
+    | true =>
+      simp only [step]
+      split
+      · exact h
+      · rename_i hp
+        intro b
+        have hb := h b
+        dsimp only
+        rw [balance_append, hb]
+        unfold live
+        cases b <;> simp_all [balance, delta, b2i, liveC]
+  | free =>
+    intro b
+    have hb := h b
+    simp only [step]
+    rw [balance_append, hb, balance_freeEvents _ hc]
+    unfold live
+    dsimp only
+    rw [liveC_init]
+    cases b <;> simp [b2i, liveC] <;> (repeat' split) <;> simp_all
+
+theorem init_linv : LInv State.init := by
+  intro b
+  cases b <;> simp [State.init, balance, live, liveC, hasTable, hasId, slots, slotLive, b2i]
+
+theorem run_inv (o : Oracle) (h : List Op) : ∀ s, CInv s.core → LInv s →
+    CInv (run o s h).1.core ∧ LInv (run o s h).1 := by
+  induction h with
+  | nil => intro s h1 h2; exact ⟨h1, h2⟩
+  | cons op ops ih => intro s h1 h2; exact ih _ (step_cinv o s op h1) (step_linv o s op h1 h2)
+
+/-- **ledger_consistent**: after ANY history, every block the modelled code ever malloc'ed is either
+    freed exactly once or still reachable from a chain entry, a scratch pointer or a pool pointer —
+    no leak, no double free, no dangling chain entry (also across table growth/realloc and move-to-front) -/
+theorem ledger_consistent (o : Oracle) (h : List Op) (b : Block) :
+    balance b (run o State.init h).1.ledger = b2i (live (run o State.init h).1 b) :=
+  (run_inv o h State.init init_cinv init_linv).2 b
+
+/-- **ledger_empty**: after `lou_free` — wherever it comes in whatever history — nothing the library
+    allocated is left, except the two never-freed pool headers (if a translation / back-translation
+    ran), which stay reachable from their static pointer -/
+theorem ledger_empty (o : Oracle) (h : List Op) (b : Block) :
+    let s := (run o State.init h).1
+    balance b (step o s .free).1.ledger = b2i ((b == .fwdPool && s.fwdPool) || (b == .bwdPool && s.bwdPool)) := by
+  intro s
+  obtain ⟨h1, h2⟩ := run_inv o h State.init init_cinv init_linv
+  have := step_linv o s .free h1 h2 b
+  rw [this]
+  simp only [step, live, liveC_init, Bool.false_or]
+
+/-- **free_resets**: the state after `lou_free` is the initial state, up to the two pool headers -/
+theorem free_resets (o : Oracle) (s : State) :
+    (step o s .free).1.core = State.init.core ∧ (step o s .free).1.fwdPool = s.fwdPool ∧
+    (step o s .free).1.bwdPool = s.bwdPool := ⟨rfl, rfl, rfl⟩
+
+theorem step_core_only (o : Oracle) (s s' : State) (op : Op) (h : s.core = s'.core) :
+    (step o s op).2 = (step o s' op).2 ∧ (step o s op).1.core = (step o s' op).1.core ∧
+    ∃ evs, (step o s op).1.log = s.log ++ evs ∧ (step o s' op).1.log = s'.log ++ evs := by
+  obtain ⟨c, fp, bp, led, lg⟩ := s
+  obtain ⟨c', fp', bp', led', lg'⟩ := s'
+  simp only at h
+  subst h
+  cases op with
+  | get t d f => exact ⟨rfl, rfl, _, rfl, rfl⟩
+  | compileString n ok g => exact ⟨rfl, rfl, _, rfl, rfl⟩
+  | scratch e b i sm dm => exact ⟨rfl, rfl, _, rfl, rfl⟩
+  | pool b =>
+    cases b <;> (simp only [step]; split <;> split <;> exact ⟨rfl, rfl, [], by simp, by simp⟩)
+  | free => exact ⟨rfl, rfl, [.freed], rfl, rfl⟩
+
+theorem run_core_only (o : Oracle) (h : List Op) : ∀ (s s' : State), s.core = s'.core →
+    (run o s h).2 = (run o s' h).2 ∧
+    ∃ evs, (run o s h).1.log = s.log ++ evs ∧ (run o s' h).1.log = s'.log ++ evs := by
+  induction h with
+  | nil => intro s s' _; exact ⟨rfl, [], by simp [run], by simp [run]⟩
+  | cons op ops ih =>
+    intro s s' hc
+    obtain ⟨h1, h2, evs, h3, h4⟩ := step_core_only o s s' op hc
+    obtain ⟨h5, evs', h6, h7⟩ := ih _ _ h2
+    refine ⟨by simp only [run, h1, h5], evs ++ evs', ?_, ?_⟩
+    · simp only [run]; rw [h6, h3, List.append_assoc]
+    · simp only [run]; rw [h7, h4, List.append_assoc]
+
+/-- **fresh_after_free**: after `lou_free`, every further history of calls returns what it returns in
+    a fresh process (same tables handed out or refused, same return values) and compiles exactly the
+    same lists in the same order — whatever happened before the `lou_free` -/
+theorem fresh_after_free (o : Oracle) (before after : List Op) :
+    let s := (step o (run o State.init before).1 .free).1
+    (run o s after).2 = (run o State.init after).2 ∧
+    ∃ evs, (run o s after).1.log = s.log ++ evs ∧ (run o State.init after).1.log = evs := by
+  intro s
+  obtain ⟨h1, evs, h2, h3⟩ := run_core_only o after s State.init rfl
+  exact ⟨h1, evs, h2, by simpa [State.init] using h3⟩
+
+/-! ### compile once, as the property states it (public calls) -/
+
+theorem want_spec (c : List Entry) (l : Option Name) :
+    want (look c l).1 l = match l with
+      | none => none
+      | some n => if cached c n then none else some n := by
+  cases l with
+  | none => simp [want]
+  | some n =>
+    dsimp only
+    by_cases hc : cached c n = true
+    · rw [if_pos hc]; exact want_cached c n hc
+    · rw [if_neg hc]
+      have h1 := lookup_isSome c n
+      rw [Bool.eq_false_iff.mpr hc] at h1
+      simp only [look]
+      cases hx : (lookup c n).1 with
+      | none => simp [want]
+      | some e => rw [hx] at h1; simp at h1
+
+/-- the events are "diagonal": both roles, one list, and the result is the oracle's -/
+def Diag (o : Oracle) (ev : Event) : Prop :=
+  match ev with
+  | .compile t d ok => t = d ∧ t.isSome = true ∧ ok = o.compiles t d
+  | _ => True
+
+def PubInv (c : Core) : Prop := ∀ n, cached c.tr n = cached c.disp n
+
+theorem getTable_public (o : Oracle) (c : Core) (a : Name) (h : PubInv c) :
+    PubInv (getTable o c (some a) (some a)).core ∧ ∀ ev ∈ (getTable o c (some a) (some a)).events, Diag o ev := by
+  unfold getTable
+  dsimp only
+  have ptr := look_perm c.tr (norm (some a))
+  have pd := look_perm c.disp (norm (some a))
+  have wt := want_spec c.tr (norm (some a))
+  have wd := want_spec c.disp (norm (some a))
+  have hwd : want (look c.disp (norm (some a))).1 (norm (some a)) = want (look c.tr (norm (some a))).1 (norm (some a)) := by
+    rw [wt, wd]
+    cases norm (some a) with
+    | none => rfl
+    | some n => dsimp only; rw [h n]
+  rw [hwd]
+  generalize look c.tr (norm (some a)) = tl at *
+  generalize look c.disp (norm (some a)) = dl at *
+  generalize want tl.1 (norm (some a)) = w at *
+  have base : ∀ n, cached tl.2 n = cached dl.2 n := fun n => by rw [cached_perm ptr, cached_perm pd, h n]
+  split
+  · exact ⟨base, by simp⟩
+  · rename_i hw
+    have hs : w.isSome = true := by
+      cases w with
+      | none => simp at hw
+      | some _ => rfl
+    split
+    · refine ⟨fun n => ?_, ?_⟩
+      · dsimp only; rw [cached_push, cached_push, base n]
+      · intro ev hev
+        simp only [List.mem_singleton] at hev
+        subst hev
+        rename_i hok
+        exact ⟨rfl, hs, hok.symm⟩
+    · refine ⟨base, ?_⟩
+      intro ev hev
+      simp only [List.mem_singleton] at hev
+      subst hev
+      rename_i hok
+      exact ⟨rfl, hs, by simpa using hok⟩
+
+theorem stepCore_public (o : Oracle) (c : Core) (op : Op) (hp : op.isPublic = true) (h : PubInv c) :
+    PubInv (stepCore o c op).core ∧ ∀ ev ∈ (stepCore o c op).events, Diag o ev := by
+  cases op with
+  | get t d f =>
+    cases t with
+    | none => simp [Op.isPublic] at hp
+    | some a =>
+      cases d with
+      | none => simp [Op.isPublic] at hp
+      | some b =>
+        cases f with
+        | false => simp [Op.isPublic] at hp
+        | true =>
+          simp only [Op.isPublic, decide_eq_true_eq] at hp
+          subst hp
+          obtain ⟨h1, h2⟩ := getTable_public o c a h
+          simp only [stepCore, if_true]
+          unfold finalizeHead
+          split
+          · rename_i x e es e1 e2
+            split
+            · exact ⟨h1, h2⟩
+            · split
+              · refine ⟨fun n => ?_, h2⟩
+                dsimp only; rw [cached_setFinal, ← e2]; exact h1 n
+              · exact ⟨h1, h2⟩
+          · exact ⟨h1, h2⟩
+  | compileString n ok g =>
+    obtain ⟨h1, h2⟩ := getTable_public o c n h
+    simp only [stepCore]
+    unfold compileString
+    generalize getTable o c (some n) (some n) = r at *
+    dsimp only
+    have hadd : ∀ (x : Nat) (b : Bool), ∀ ev ∈ r.events ++ [Event.added x b], Diag o ev := by
+      intro x b ev hev
+      simp only [List.mem_append, List.mem_singleton] at hev
+      rcases hev with hev | rfl
+      · exact h2 ev hev
+      · trivial
+    split
+    · rename_i a e es e1 e2
+      split
+      · exact ⟨h1, hadd _ _⟩
+      · split
+        · refine ⟨fun m => ?_, hadd _ _⟩
+          dsimp only; rw [cached_retarget, ← e2]; exact h1 m
+        · exact ⟨h1, hadd _ _⟩
+    · exact ⟨h1, h2⟩
+  | scratch e b i sm dm =>
+    obtain ⟨h1, h2, _, h4⟩ := scratch_chains c e b i sm dm
+    simp only [stepCore]
+    exact ⟨fun n => by rw [h1, h2]; exact h n, by simp [h4]⟩
+  | pool b => exact ⟨h, by simp [stepCore]⟩
+  | free => exact ⟨h, by simp [stepCore]⟩
+
+theorem run_public (o : Oracle) (h : List Op) (hp : ∀ op ∈ h, op.isPublic = true) : ∀ s,
+    PubInv s.core → (∀ ev ∈ s.log, Diag o ev) →
+    PubInv (run o s h).1.core ∧ ∀ ev ∈ (run o s h).1.log, Diag o ev := by
+  induction h with
+  | nil => intro s h1 h2; exact ⟨h1, h2⟩
+  | cons op ops ih =>
+    intro s h1 h2
+    have hop := hp op (by simp)
+    have core : ∀ op', op'.isPublic = true →
+        PubInv (stepCore o s.core op').core ∧ ∀ ev ∈ s.log ++ (stepCore o s.core op').events, Diag o ev := by
+      intro op' hp'
+      obtain ⟨a, b⟩ := stepCore_public o s.core op' hp' h1
+      refine ⟨a, fun ev hev => ?_⟩
+      simp only [List.mem_append] at hev
+      rcases hev with hev | hev
+      · exact h2 ev hev
+      · exact b ev hev
+    apply ih (fun x hx => hp x (by simp [hx]))
+    · cases op with
+      | get t d f => exact (core _ hop).1
+      | compileString n ok g => exact (core _ hop).1
+      | scratch e b i sm dm => exact (core _ hop).1
+      | pool b => cases b <;> (simp only [step]; split <;> exact h1)
+      | free => intro n; rfl
+    · cases op with
+      | get t d f => exact (core _ hop).2
+      | compileString n ok g => exact (core _ hop).2
+      | scratch e b i sm dm => exact (core _ hop).2
+      | pool b => cases b <;> (simp only [step]; split <;> exact h2)
+      | free =>
+        intro ev hev
+        simp only [step, List.mem_append, List.mem_singleton] at hev
+        rcases hev with hev | rfl
+        · exact h2 ev hev
+        · trivial
+
+theorem epochCount_congr (p q : Event → Bool) (log : List Event) (h : ∀ ev ∈ log, p ev = q ev) :
+    epochCount p log = epochCount q log := by
+  have : ∀ (l : List Event) (acc : Nat), (∀ ev ∈ l, p ev = q ev) →
+      l.foldl (fun acc ev => if ev = .freed then 0 else if p ev then acc + 1 else acc) acc =
+      l.foldl (fun acc ev => if ev = .freed then 0 else if q ev then acc + 1 else acc) acc := by
+    intro l
+    induction l with
+    | nil => intro _ _; rfl
+    | cons e es ih =>
+      intro acc hh
+      simp only [List.foldl_cons]
+      rw [hh e (by simp)]
+      exact ih _ (fun x hx => hh x (by simp [hx]))
+  exact this log 0 h
+
+/-- **compile_once_public**: in ANY history of the public calls that ask for both tables with one list
+    (lou_getTable / lou_checkTable / lou_translate* / lou_backTranslate* / lou_hyphenate /
+    lou_compileString, scratch requests, lou_free anywhere), a list `n` whose compilation succeeds has
+    its files read by at most ONE compileTable call since the last `lou_free` (exactly one if it is
+    cached, none otherwise) -/
+theorem compile_once_public (o : Oracle) (h : List Op) (hp : ∀ op ∈ h, op.isPublic = true) (n : Name)
+    (hok : o.compiles (some n) (some n) = true) :
+    epochCount (isCompileOf n) (run o State.init h).1.log = b2n (cached (run o State.init h).1.core.tr n) ∧
+    epochCount (isCompileOf n) (run o State.init h).1.log ≤ 1 := by
+  obtain ⟨_, hd⟩ := run_public o h hp State.init (fun _ => rfl) (by simp [State.init])
+  have hc := compile_once o h n
+  have : epochCount (isCompileOf n) (run o State.init h).1.log = epochCount (isTrCompiled n) (run o State.init h).1.log := by
+    apply epochCount_congr
+    intro ev hev
+    have := hd ev hev
+    cases ev with
+    | compile t d ok =>
+      obtain ⟨rfl, hs, rfl⟩ := this
+      cases t with
+      | none => simp at hs
+      | some m =>
+        by_cases hm : m = n
+        · subst hm; simp [isCompileOf, isTrCompiled, hok]
+        · generalize o.compiles (some m) (some m) = b
+          cases b <;> simp [isCompileOf, isTrCompiled, hm]
+    | added t b => rfl
+    | freed => rfl
+  rw [this]
+  exact ⟨hc.1, hc.2.2.1⟩
+
+theorem epochCount_false (log : List Event) : epochCount (fun _ => false) log = 0 := by
+  unfold epochCount
+  induction log with
+  | nil => rfl
+  | cons e es ih =>
+    simp only [List.foldl_cons]
+    have : (if e = Event.freed then 0 else if (false = true) then 0 + 1 else 0) = 0 := by split <;> simp
+    rw [this]; exact ih
+
+/-- (a) a FAILED compilation is not cached: every call that names a bad list compiles it again -/
+theorem failed_compile_repeats :
+    let o : Oracle := { compiles := fun _ _ => false }
+    let bad : Name := [98]
+    epochCount (isCompileOf bad)
+      (run o State.init [.get (some bad) (some bad) true, .get (some bad) (some bad) true,
+                         .get (some bad) (some bad) true]).1.log = 3 := by decide
+
+/-- in general: while the compilation of `n` fails, `n` never enters a chain -/
+theorem failed_never_cached (o : Oracle) (h : List Op) (n : Name) (hbad : ∀ d, o.compiles (some n) d = false) :
+    cached (run o State.init h).1.core.tr n = false := by
+  have hc := (compile_once o h n).1
+  have hz : ∀ log : List Event, (∀ ev ∈ log, isTrCompiled n ev = false) → epochCount (isTrCompiled n) log = 0 := by
+    intro log hl
+    rw [epochCount_congr _ (fun _ => false) log hl]
+    exact epochCount_false log
+  -- every successful compile event in the log agrees with the oracle
+  have hlog : ∀ (hh : List Op) (s : State), (∀ ev ∈ s.log, isTrCompiled n ev = false) →
+      ∀ ev ∈ (run o s hh).1.log, isTrCompiled n ev = false := by
+    intro hh
+    induction hh with
+    | nil => intro s hs; exact hs
+    | cons op ops ih =>
+      intro s hs
+      apply ih
+      have core : ∀ op', ∀ ev ∈ s.log ++ (stepCore o s.core op').events, isTrCompiled n ev = false := by
+        intro op' ev hev
+        simp only [List.mem_append] at hev
+        rcases hev with hev | hev
+        · exact hs ev hev
+        · have gt : ∀ t d, ∀ ev ∈ (getTable o s.core t d).events, isTrCompiled n ev = false := by
+            intro t d ev hev
+            unfold getTable at hev
+            dsimp only at hev
+            split at hev
+            · simp at hev
+            · split at hev
+              · rename_i hok
+                simp only [List.mem_singleton] at hev
+                subst hev
+                generalize want (look s.core.tr (norm t)).1 (norm t) = wT at *
+                cases wT with
+                | none => rfl
+                | some m =>
+                  by_cases hm : m = n
+                  · subst hm; rw [hbad] at hok; simp at hok
+                  · simp [isTrCompiled, hm]
+              · simp only [List.mem_singleton] at hev
+                subst hev
+                cases want (look s.core.tr (norm t)).1 (norm t) <;> rfl
+          cases op' with
+          | get t d f =>
+            simp only [stepCore] at hev
+            split at hev
+            · unfold finalizeHead at hev
+              split at hev
+              · split at hev
+                · exact gt t d ev hev
+                · split at hev <;> exact gt t d ev hev
+              · exact gt t d ev hev
+            · exact gt t d ev hev
+          | compileString m ok g =>
+            simp only [stepCore] at hev
+            unfold compileString at hev
+            dsimp only at hev
+            split at hev
+            · split at hev
+              · simp only [List.mem_append, List.mem_singleton] at hev
+                rcases hev with hev | rfl
+                · exact gt _ _ ev hev
+                · rfl
+              · split at hev
+                · simp only [List.mem_append, List.mem_singleton] at hev
+                  rcases hev with hev | rfl
+                  · exact gt _ _ ev hev
+                  · rfl
+                · simp only [List.mem_append, List.mem_singleton] at hev
+                  rcases hev with hev | rfl
+                  · exact gt _ _ ev hev
+                  · rfl
+            · exact gt _ _ ev hev
+          | scratch e b i sm dm =>
+            simp only [stepCore] at hev
+            rw [(scratch_chains s.core e b i sm dm).2.2.2] at hev; simp at hev
+          | pool b => simp [stepCore] at hev
+          | free => simp [stepCore] at hev
+      cases op with
+      | get t d f => exact core _
+      | compileString m ok g => exact core _
+      | scratch e b i sm dm => exact core _
+      | pool b => cases b <;> (simp only [step]; split <;> exact hs)
+      | free =>
+        intro ev hev
+        simp only [step, List.mem_append, List.mem_singleton] at hev
+        rcases hev with hev | rfl
+        · exact hs ev hev
+        · rfl
+  have := hz _ (hlog h State.init (by simp [State.init]))
+  rw [this] at hc
+  unfold b2n at hc
+  cases hcc : cached (run o State.init h).1.core.tr n with
+  | false => rfl
+  | true => rw [hcc] at hc; simp at hc
+
+/-- (b) the two roles of one list are compiled separately when a call asks for one role only:
+    `lou_charToDots(n)` then `lou_translate(n)` reads the files of `n` twice -/
+theorem roles_compiled_separately :
+    let o : Oracle := { compiles := fun _ _ => true }
+    let n : Name := [97]
+    (run o State.init [.get none (some n) false, .get (some n) (some n) true]).1.log =
+      [.compile none (some n) true, .compile (some n) none true] := by decide
+
+/-- non-vacuity and a worked example: lists `a`, `ab` (a is a prefix of ab), a bad list, a rule added
+    to `a` that makes its table move, `lou_free`, reuse — table identities, compile events, ledger -/
+example :
+    let o : Oracle := { compiles := fun t d => t != some [98] && d != some [98] }
+    let a : Name := [97]
+    let ab : Name := [97, 98]
+    let h : List Op := [.compileString a true true, .get (some a) (some a) true, .get (some ab) (some ab) true,
+                        .get (some [98]) (some [98]) true, .get (some a) (some a) true, .pool false,
+                        .scratch false .typebuf 0 10 20, .free, .get (some a) (some a) true]
+    (run o State.init h).2.map (·.tr) = [some 4, some 4, some 5, none, some 4, none, none, none, some 0] ∧
+    (run o State.init h).1.log = [.compile (some a) (some a) true, .added 4 true, .compile (some ab) (some ab) true,
+        .compile (some [98]) (some [98]) false, .freed, .compile (some a) (some a) true] := by decide
+
 end Lou.Cache
